@@ -46,11 +46,14 @@ fn header_bytes(version: u32, combiners: bool, blend: bool, fill: bool) {
     let mut b = Seg::any(CAP);
     b.set(0, b'M'); b.set(1, b'D'); b.set(2, b'2'); b.set(3, b'0');
     b.set32(4, version);
-    // flags word at 16..20: bytes 0 and 3 hold the two layout bits and are part of the shape (all their other bits are
-    // set in one variant, clear in the other); bytes 1 and 2 are symbolic
+    // flags word at 16..20 is part of the shape (the two layout bits decide which arrays follow; a partly symbolic word is
+    // not a constant for symbolic execution and makes every later position symbolic): the 30 other bits are all set in one
+    // variant and all clear in the other
     let lo: u8 = (if fill { 0xf7 } else { 0 }) | (if combiners { 0x08 } else { 0 });
     let hi: u8 = (if fill { 0xf7 } else { 0 }) | (if blend { 0x08 } else { 0 });
     b.set(16, lo);
+    b.set(17, if fill { 0xff } else { 0 });
+    b.set(18, if fill { 0xff } else { 0 });
     b.set(19, hi);
     let flags = (if combiners { FLAG_COMBINERS } else { 0 }) | (if blend { FLAG_BLEND_OVERRIDE } else { 0 });
     let size = format_header_size(version, flags);
